@@ -1,7 +1,9 @@
 #!/bin/sh
-# usage: try_seed.sh <patch.diff> <PROP> [tier]   -- apply a seeded change to /repo, run the check, undo
-P="$1"; PROP="$2"; TIER="${3:-quick}"
-git -C /repo apply "$P" || { echo "PATCH DOES NOT APPLY"; exit 9; }
-cd /verif && ./check "$PROP" "$TIER" | grep -E "^(VIOLATION|KNOWN|UNDECIDED|CHECKER|SUMMARY)" | cut -c1-260
-git -C /repo checkout -- . 
-git -C /repo status --short | head -3
+# try_seed.sh <dir with patch.diff> <PROP> [unit-name substring]: run one check (quick) on a scratch copy of /repo with the patch
+d=$1; p=$2; only=$3
+root=$(mktemp -d /tmp/tryseed.XXXXXX)
+cp -r /repo/src $root/src
+(cd $root && (git apply --unsafe-paths --directory=$root $d/patch.diff 2>/dev/null || patch -s -p1 -i $d/patch.diff)) || { echo "patch does not apply"; rm -rf $root; exit 3; }
+cd /verif && PYVC_REPO=$root PYVC_OUT=$root/out PYVC_ONLY="$only" ./check $p ${TIER:-quick} 2>&1 | grep -v "^NOTE\|^KNOWN" | cut -c1-${WIDTH:-330} | tail -${LINES_:-12}
+rc=$?
+rm -rf $root
